@@ -1,5 +1,9 @@
 //! C07 — a rejected configuration command leaves no trace; an accepted one changes only what it names.
 //!
+//! Two tiers, chosen per seed: the model tier below (master-side `ConfigState`), and for one seed in `WORKER_ONE_IN`
+//! (plus the systematic plans of `enumerated`) the worker tier of c07_net.rs: a real worker under the libc seam, observed
+//! through its query verbs and a fixed probe set before and after every command (plan field `worker`).
+//!
 //! modelsim tier on `sozu_command_lib::state::ConfigState::dispatch`: seeded command histories (cfggen)
 //! with a high rate of *partly* invalid commands. After every command the whole configuration is compared
 //! structurally with its pre-image.
@@ -334,7 +338,21 @@ fn check_accepted(t: &RequestType, verb0: &str, pre: &ConfigState, post: &Config
 
 // ------------------------------------------------------------------------------------ the property
 
+/// one seed in `WORKER_ONE_IN` is a worker-tier plan (`{"worker": NetPlan}`, c07_net.rs); SIMK_C07_ONLY=worker|model
+/// restricts a batch to one tier (development / sensitivity runs)
+pub const WORKER_ONE_IN: u64 = 16;
+/// (thorough tier: one seed in 64, the histories are longer)
+pub fn is_worker_seed(seed: u64, tier: Tier) -> bool {
+    let n = match tier { Tier::Quick => WORKER_ONE_IN, Tier::Thorough => 4 * WORKER_ONE_IN };
+    match std::env::var("SIMK_C07_ONLY").as_deref() { Ok("worker") => true, Ok("model") => false, _ => (seed >> 9) % n == 0 }
+}
+fn worker_of(plan: &Value) -> Option<Result<super::c07_net::NetPlan, RunReport>> {
+    let t = plan.get("worker")?;
+    Some(serde_json::from_value(t.clone()).map_err(|e| RunReport { harness_error: Some(format!("bad worker plan: {e}")), ..Default::default() }))
+}
+
 pub fn generate(seed: u64, tier: Tier) -> Value {
+    if is_worker_seed(seed, tier) { return json!({"worker": super::c07_net::generate(seed, tier)}); }
     let mut rng = Prng::derive(seed, "c07/plan");
     let mut o = GenOpts::swarm(&mut rng);
     o.symbolic_certs = true;
@@ -394,8 +412,13 @@ fn run(ops: Vec<Request>, hash_seed: u64) -> Out {
 impl Property for C07 {
     fn id(&self) -> &'static str { "C07" }
     fn runs(&self, tier: Tier) -> u64 { match tier { Tier::Quick => 60_000, Tier::Thorough => 1_200_000 } }
-    fn gen_plan(&self, seed: u64, tier: Tier) -> Value { generate(seed, tier) }
+    fn gen_plan(&self, seed: u64, tier: Tier) -> Value {
+        if let Some(p) = super::hubcfg::dispatch_gen("C07", seed, tier) { return p; } // hubcfg: main-process tier
+        generate(seed, tier)
+    }
     fn run_plan(&self, plan: &Value) -> RunReport {
+        if let Some(t) = worker_of(plan) { return match t { Ok(p) => super::c07_net::run_report(&p), Err(r) => r }; }
+        if let Some(r) = super::hubcfg::dispatch_run(plan) { return r; } // hubcfg
         let ops = match cfggen::ops_from_value(&plan["ops"]) { Ok(o) => o, Err(e) => return RunReport { harness_error: Some(format!("bad plan: {e}")), ..Default::default() } };
         let summary = cfggen::summarize_ops(&ops);
         let o = run(ops, plan["hash_seed"].as_u64().unwrap_or(0));
@@ -409,10 +432,18 @@ impl Property for C07 {
         rep.probes.insert("commands_accepted".into(), o.accepted);
         rep
     }
+    fn enumerated(&self, _tier: Tier) -> Vec<Value> {
+        if std::env::var("SIMK_C07_ONLY").as_deref() == Ok("model") { return vec![]; }
+        super::c07_net::systematic().into_iter().map(|p| json!({"worker": p})).collect()
+    }
     fn shrink(&self, plan: &Value) -> Vec<Value> {
+        if let Some(t) = worker_of(plan) { return match t { Ok(p) => super::c07_net::shrink(&p).into_iter().map(|q| json!({"worker": q})).collect(), Err(_) => vec![] }; }
+        if let Some(c) = super::hubcfg::dispatch_shrink(plan) { return c; } // hubcfg
         cfggen::shrink_ops(&plan["ops"]).into_iter().map(|ops| { let mut p = plan.clone(); p["ops"] = ops; p }).collect()
     }
     fn debug_plan(&self, plan: &Value) -> String {
+        if let Some(t) = worker_of(plan) { return match t { Ok(p) => super::c07_net::debug(&p), Err(r) => format!("{:?}", r.harness_error) }; }
+        if let Some(d) = super::hubcfg::dispatch_debug(plan) { return d; } // hubcfg
         let Ok(ops) = cfggen::ops_from_value(&plan["ops"]) else { return "bad plan".into() };
         let mut s = String::new();
         let mut st = ConfigState::new();
@@ -427,11 +458,11 @@ impl Property for C07 {
     fn descr(&self) -> Descr {
         Descr {
             level: "exploration",
-            rule: "seeded command histories over every mutating ConfigState verb (swarm: alphabet sizes, verb mix, invalid / partly-invalid / collision rates, hash seed); after every command the full configuration is compared with its pre-image; a run is non-trivial when >=1 command was rejected and >=1 accepted; distinct = distinct (verb, result, delta) trace hashes",
-            assumptions: vec!["release semantics (debug assertions off)", "the census `request_counts` is not configuration and is excluded from equality"],
-            real: vec!["sozu_command_lib::state::ConfigState::dispatch and every handler behind it", "certificate parsing / fingerprinting (x509-parser, sha2)", "proto request types"],
-            stub: vec!["clock", "entropy (HashMap seeds)"],
-            not_covered: vec!["worker tier (live proxies after a FAILURE answer) and main-process tier (scatter only after local accept): need netsim/hubsim configuration scenarios", "whether an accepted patch field is actually applied (only the frame is checked; see report on ignored patch fields)"],
+            rule: "two tiers, chosen per seed (1 seed in 16 is a worker-tier plan; plan field `worker`). MODEL TIER: seeded command histories over every mutating ConfigState verb (swarm: alphabet sizes, verb mix, invalid / partly-invalid / collision rates, hash seed); after every command the full configuration is compared with its pre-image; a run is non-trivial when >=1 command was rejected and >=1 accepted. WORKER TIER (c07_net.rs, c07_probe.rs): a real worker (Server::try_new_from_config + run under the libc seam) is given a valid base by a scripted master (1-2 HTTP listeners, optionally an HTTPS and a TCP listener, 2-3 clusters with their own backends, answer templates whose bodies name their origin - per listener and per cluster -, a cluster without backend, a frontend behind basic auth, certificates), then a history of 3-10 (thorough: 4-20) commands, one at a time over a fragmented command stream, 30-70% of them with exactly one defect only a worker notices (listener patches with an unparsable answer template / legacy template / bad sozu_id_header / zero flood knob / bad ALPN / HSTS without `enabled` beside good fields, clusters with unparsable templates or an invalid health check, frontends on an address without listener / with an invalid regex / hostname / enum value / HSTS on plain HTTP / duplicates, certificates with unparsable PEM / unknown address / unknown or non-hex fingerprints, listeners with unparsable templates / TLS versions / cipher lists / on a used address, (de)activation and removal of unknown, inactive or already active listeners, invalid health checks); before the first and after every command the worker is observed: QueryClustersHashes, QueryClusterById per cluster, QueryClustersByDomain per host, QueryCertificatesFromWorkers (all / per domain / per fingerprint), QueryMaxConnectionsPerIp, and 10-20 probes on fresh connections (per listener: unknown host -> 404 page, cluster without backend -> 503 page, basic auth -> 401 page, routed hosts -> which cluster's backend, sticky cookie name; TLS: certificate served per SNI; TCP listener: which cluster's backend; addresses where nothing should listen). Oracle: command answered FAILURE => both observations equal; answered OK => everything outside the command's footprint (the listener address / cluster / hostname / certificate store it names, computed from the request and the plan) equal; a well-formed command aimed at objects the history configured must not be answered FAILURE. Keys are `verb|trigger|symptom`; the trigger comes from a plan-level model of the history (never from sozu's answers). Triggers of recorded findings occur in half of the plans only, as the last command. Plus ~106 systematic plans: one per (verb, trigger) pair on a fixed base configuration, and two-step histories for what a rejected patch / a deactivation leaves behind. Non-trivial (worker tier) when >=1 command was answered FAILURE and >=1 OK. distinct = distinct trace hashes (model: verb, result, delta; worker: scheduler trace, answers, every observation)",
+            assumptions: vec!["release semantics (debug assertions off)", "the census `request_counts` is not configuration and is excluded from equality", "worker tier: which backend of a cluster answers, and whether a close arrives as FIN or RST, are not configuration; request ids inside generated pages are masked", "worker tier: AF_UNIX listeners with simulated addresses stand in for TCP listeners (a second bind of one address fails, as without SO_REUSEPORT)"],
+            real: vec!["sozu_command_lib::state::ConfigState::dispatch and every handler behind it", "certificate parsing / fingerprinting (x509-parser, sha2)", "proto request types", "worker tier: sozu_lib::server::Server (notify / notify_proxys, ConfigState copy, listener (de)activation), HttpProxy / HttpsProxy / TcpProxy command handlers, HttpListener / HttpsListener::update_config, HttpAnswers template engine, router, CertificateResolver + rustls handshakes, mux H1 sessions, backends, the worker side of the command channel"],
+            stub: vec!["clock", "entropy (HashMap seeds)", "worker tier: master process (scripted, own framing codec), HTTP/1.1 probe clients (plain and over rustls), HTTP/1.1 backends"],
+            not_covered: vec!["main-process tier (a command rejected by the master is never scattered): hubsim", "whether an accepted patch field is actually applied (only the frame is checked; see report on ignored patch fields)", "worker tier: UDP listeners / frontends; commands sent while another one is in flight or while traffic is in flight; traces only visible through timeouts, metrics, access-log tags or HTTP/2; listener state is not queryable on a worker and is observed through behaviour only; commands after a command that carries the trigger of a recorded finding (such a command is always the last of its plan)"],
         }
     }
 }
